@@ -52,7 +52,7 @@ ASSUMPTIONS = [
 
 
 def budget(tier):
-    return int(os.environ.get("VERIF_BUDGET", 0)) or {"quick": 1600, "thorough": 30000}[tier]
+    return int(os.environ.get("VERIF_BUDGET", 0)) or {"quick": 1600, "thorough": 12000}[tier]
 
 
 def translators():
